@@ -11,7 +11,7 @@ from ..core import EventLog, Result, SimFault, SimBudget, HarnessError, choice, 
 from ..families import sample_config, make_data, make_affinity, build_model, FAMILIES, config_signature
 from ..refs import mlcl_accepts
 from ..seams import World, ModelHarness
-from .common import sample_sched, exc_site, is_harness_frame, quiet
+from .common import sample_sched, exc_site, is_harness_frame, quiet, sample_prefix, second_dataset, run_generic_op
 
 PROPERTY = "C14"
 RULE = ("one run = one add_mlcl_constraint call with a generated (must_link, cannot_link, factor, input format) on a sampled "
@@ -134,8 +134,13 @@ def generate(rng):
         case = gen_case(rng, rng.choice([50, 1000, 7]), False)
         case["validation_only"] = True
     cfg["case"] = case
+    cfg["n2"] = cfg["n"] if rng.random() < 0.6 else cfg["n"] + rng.randint(1, 5)
     faults = {"sched": sample_sched(rng, decorated=True), "opt": weighted(rng, [("real", 4), ("identity", 1)])}
-    return {"property": PROPERTY, "scenario": "mlcl", "config": cfg, "ops": [{"op": "decorate"}, {"op": "fit"}], "faults": faults}
+    # the decorated object lives through a history: earlier / interrupted / rejected fits, parameter changes, other data
+    ops = [{"op": "decorate"}] + sample_prefix(rng, cfg, p_any=0.5, allow_path=False) + [{"op": "fit", "data": 0}]
+    if rng.random() < 0.2:
+        ops.append({"op": "fit", "data": rng.randrange(2)})
+    return {"property": PROPERTY, "scenario": "mlcl", "config": cfg, "ops": ops, "faults": faults}
 
 
 def execute(record):
@@ -215,7 +220,16 @@ def execute(record):
                 P = np.array(y_pred, copy=True)
                 _, G_pure = h.sim_gemini.real.evaluate(P.copy(), Ab, return_grad=True)
                 G_pure = np.array(G_pure, copy=True)
-                ret = outer_inner(Xb, y_pred, gradient)
+                try:
+                    ret = outer_inner(Xb, y_pred, gradient)
+                except (SimFault, SimBudget):
+                    raise
+                except Exception as e:
+                    if is_harness_frame(e):
+                        raise
+                    if exc_site(e) in ("intercept_grads", "disguise_batch", "decorate_grads", "decorate_batch"):
+                        res.violate(f"C14:raised:{type(e).__name__}@{exc_site(e)}", {"msg": str(e)[:200]})
+                    raise
                 if "args" not in seen:
                     raise HarnessError("inner _compute_grads spy never called by the decorator")
                 yp_seen, G_seen = seen.pop("args")
@@ -263,22 +277,17 @@ def execute(record):
                                       "factor": factor})
                 return ret
             model._compute_grads = outer_cg
+            import copy as _copy
+            cur_cfg = _copy.deepcopy(cfg)
+            pool = [(X, A), second_dataset(cfg)]
             with world, quiet():
-                world.begin_op()
-                log.emit("OP", op="fit", phase="begin")
-                try:
-                    model.fit(X, A)
-                    log.emit("OP", op="fit", phase="end")
-                except (SimFault, SimBudget):
-                    raise
-                except Exception as e:
-                    if is_harness_frame(e):
-                        raise
-                    log.emit("OP", op="fit", phase="raised", exc=type(e).__name__)
-                    if exc_site(e) in ("intercept_grads", "disguise_batch", "decorate_grads", "decorate_batch"):
-                        res.violate(f"C14:raised:{type(e).__name__}@{exc_site(e)}", {"msg": str(e)[:200]})
-                    else:
-                        res.probe("fit_raised_elsewhere:" + type(e).__name__ + "@" + exc_site(e))
+                for op in record["ops"]:
+                    if op["op"] == "decorate":
+                        continue
+                    seen.pop("args", None)
+                    outcome = run_generic_op(op, model, world, pool, cur_cfg, res, log)
+                    if outcome.startswith("raised"):
+                        res.probe("op_raised:" + op["op"] + ":" + outcome.split(":")[1])
             if log.counts.get("BATCH", 0) == 0:
                 raise HarnessError("batch seam never fired")
     except HarnessError as e:
